@@ -117,8 +117,8 @@ static int parseRange(const char *from, MPT_STRUCT(range) *r)
 {
 	double tmp;
 	int r1, r2;
-	if ((r1 = mpt_cdouble(&tmp, from, 0)) < 0) {
-		return r1;
+	if ((r1 = mpt_cdouble(&tmp, from, 0)) < 1) {
+		return r1 ? r1 : MPT_ERROR(MissingData);
 	}
 	if ((r2 = mpt_cdouble(&r->max, from + r1, 0)) < 0) {
 		return r2;
